@@ -101,8 +101,13 @@ def execute(tr, pause=None, keep=False, every_event=None, runtime=None):
                 if pause:
                     ret = sim.start(runtime=pause[0])
                     tr.pause_rets = [ret]
+                    tr.query_now()           # "reports finished exactly when ...": also at every pause point
+                    tr.count('queries_at_pause_points')
                     for until in pause[1:]:
                         sim.resume(until=until)
+                        if until != pause[-1]:
+                            tr.query_now()
+                            tr.count('queries_at_pause_points')
                     tr.df = sim.monitor.df
                     tr.tasks_df = sim._generate_final_task_data()
                 elif runtime:
